@@ -17,6 +17,7 @@
 //! IMPL answer = space separated tokens
 //!   `L:ok` | `L:err:<class>`   `L:n=<pages>`   `L:p<i>=<mediabox>|<rot>|<ops>|<images>`   `L:info=<..>`
 //!   `S:ok,root=<n>,info=<n>` | `S:err:<class>`   `S:o<id>=D:<hex>` | `S:o<id>=S:<dict hex>:<raw hex>:<decoded hex or =>`
+//!   | `S:o<id>=M` (the XMP metadata stream: presence only)
 //! The Lean driver (Drv/C02.lean) re-derives every token from the request with the model
 //! (Model/C02.lean) — the `S:` tokens from the model WRITER alone (object construction +
 //! serializer), the `L:` tokens from the model READER applied to the model writer's objects —
@@ -597,7 +598,7 @@ fn gen(rng: &mut Rng, tier: Tier) -> Vec<Case> {
     let mut cases = vec![];
     let versions = ["1.3", "1.4", "1.5", "1.6", "1.7", "2.0"];
     let (ndocs, nheavy) = match tier {
-        Tier::Quick => (70, 3),
+        Tier::Quick => (60, 1),
         Tier::Thorough => (1500, 40),
     };
     let mut push = |cfg: String, prog: &str, kind: &str| {
@@ -629,7 +630,8 @@ fn gen(rng: &mut Rng, tier: Tier) -> Vec<Case> {
         for c in ["c:z", "c:n", "x:z"] {
             push(format!("{}:{}", c, v), &prog, "doc");
         }
-        // … and under the configuration with the raw cross-reference stream
+        // … and under the configuration with the raw cross-reference stream (unreadable for a strict
+        // reader until /repo 67304722)
         if i % 4 == 0 {
             push(format!("x:n:{}", v), &prog, "doc");
         }
@@ -642,6 +644,9 @@ fn gen(rng: &mut Rng, tier: Tier) -> Vec<Case> {
         push(format!("xo:z:{}", v), &prog, "doc-objstm");
         if i % 3 == 0 {
             push(format!("o:z:{}", v), &prog, "doc-objstm");
+        }
+        if i % 3 == 1 {
+            push(format!("xo:n:{}", v), &prog, "doc-objstm");
         }
     }
     cases
